@@ -17,3 +17,58 @@ package ethnode
 
 //@ func ParseNodeKind
 //@ opaque
+
+// Node URI parsing: pure functions of the string; the parsed object is never mutated.
+//@ func ParseNodeURI
+//@ opaque
+
+//@ func (*NodeURI).ID
+//@ opaque byref
+
+//@ func (*NodeURI).RemoteHost
+//@ opaque byref
+
+//@ func (*PeerInfo).EnodeURI
+//@ opaque
+
+//@ func (*PeerInfo).EnodeID
+//@ opaque
+
+// ---- the node as seen by the agent: ghost logs of the peer operations performed on it ----
+// one append-only log per operation: rm = RemoveTrustedPeer, dc = DisconnectPeer, cn = ConnectPeer, tr = AddTrustedPeer
+//@ ghost var rmlen int
+//@ ghost var rmarg map[int]string
+//@ ghost var dclen int
+//@ ghost var dcarg map[int]string
+//@ ghost var cnlen int
+//@ ghost var cnarg map[int]string
+//@ ghost var trlen int
+//@ ghost var trarg map[int]string
+
+//@ interface ethnode.EthNode.RemoveTrustedPeer(ctx, nodeID) (err)
+//@ defines [log] rmlen == old(rmlen) + 1 && rmarg == upd(old(rmarg), old(rmlen), nodeID)
+//@ modifies rmlen, rmarg
+
+//@ interface ethnode.EthNode.DisconnectPeer(ctx, nodeID) (err)
+//@ defines [log] dclen == old(dclen) + 1 && dcarg == upd(old(dcarg), old(dclen), nodeID)
+//@ modifies dclen, dcarg
+
+//@ interface ethnode.EthNode.ConnectPeer(ctx, nodeURI) (err)
+//@ defines [log] cnlen == old(cnlen) + 1 && cnarg == upd(old(cnarg), old(cnlen), nodeURI)
+//@ modifies cnlen, cnarg
+
+//@ interface ethnode.EthNode.AddTrustedPeer(ctx, nodeID) (err)
+//@ defines [log] trlen == old(trlen) + 1 && trarg == upd(old(trarg), old(trlen), nodeID)
+//@ modifies trlen, trarg
+
+//@ interface ethnode.EthNode.Peers(ctx) (result, err)
+//@ modifies nothing
+
+//@ interface ethnode.EthNode.BlockNumber(ctx) (result, err)
+//@ modifies nothing
+
+//@ interface ethnode.EthNode.Enode(ctx) (result, err)
+//@ modifies nothing
+
+//@ interface ethnode.EthNode.UserAgent() (result)
+//@ modifies nothing
